@@ -157,6 +157,22 @@ def pairs(rng):
     zz = gen.arr([None if rng.random() < 0.1 else float(k % 5) for k in range(n)])
     yield ("climatology", "nested vspan/fspan", "qartod.climatology_test",
            {"config": [memL], "inp": X, "tinp": Tm, "zinp": zz}, {"config": [memS], "inp": X, "tinp": Tm, "zinp": zz})
+    if n >= 2:
+        # two members over the two halves of the record; the stricter config gives the second one a fail span too (and
+        # may tighten the first one's): each member fails values by ITS OWN fail span only
+        iso = lambda s_: str(gen.times([s_], "dt64s")[0])  # noqa: E731
+        tmid = t[n // 2 - 1] if n // 2 >= 1 else t[0]
+        v1, v2 = sorted((gen.dyadic(rng), gen.dyadic(rng))), sorted((gen.dyadic(rng), gen.dyadic(rng)))
+        f1 = [v1[0] - rng.choice([0, 0.5]), v1[1] + rng.choice([0, 0.5])]
+        m1 = {"tspan": [iso(t[0]), iso(tmid)], "vspan": v1, "fspan": f1}
+        m2 = {"tspan": [iso(tmid + 1), iso(t[-1] + 1)], "vspan": v2}
+        m2s = dict(m2, fspan=[v2[0] - rng.choice([0, 1, 8]), v2[1] + rng.choice([0, 1, 8])])
+        m1s = dict(m1, fspan=nest(rng, *f1)) if rng.random() < 0.5 else m1
+        if min(m1s["fspan"]) <= v1[0] and max(m1s["fspan"]) >= v1[1]:
+            order = rng.random() < 0.5
+            yield ("climatology", "second member gains a fail span", "qartod.climatology_test",
+                   {"config": [m1, m2] if order else [m2, m1], "inp": X, "tinp": Tm, "zinp": zz},
+                   {"config": [m1s, m2s] if order else [m2s, m1s], "inp": X, "tinp": Tm, "zinp": zz})
 
 
 def run(ctx) -> None:
